@@ -74,6 +74,8 @@ func runC16(r *an.Run) {
 						o.FailAt(f.ID+"#flag-"+name, w.Where(), "%s is assigned %s", name, an.Text(as.Rhs[0]))
 					}
 					guardedAll(o, f, []an.Site{w}, facts...)
+					// and by nothing else: an extra condition changes a row of the table
+					onlyGuards(o, f, w, []string{`^reason != nil$`, `^!?\(?h\.Failure != nil\)?$`, `^!?\(?h\.Settle != nil\)?$`, `^h\.(Failure|Settle) == nil$`}, "flag "+name)
 					if name != "paymentFailed" {
 						if hdr := enclosingLoopHeader(f, as); hdr != "$p0" {
 							o.FailAt(f.ID+"#flag-loop-"+name, w.Where(), "%s is derived from %s, expected the payment's attempts", name, hdr)
@@ -509,6 +511,125 @@ func runC16(r *an.Run) {
 						want bool // nil wanted?
 					}{{"htlcAttemptInfoKey", false}, {"htlcFailInfoKey", true}, {"htlcSettleInfoKey", true}} {
 						guarded(o, lf, s, an.IsNil(an.CallNamed("Get", nil, canonTerm(`htlcBucketKey\(`+pd+k.key+`, `)), k.want, "htlcsBucket.Get("+k.key+") nil="+map[bool]string{true: "yes", false: "no"}[k.want]))
+					}
+				}
+			}
+		})
+
+	r.Obl("resolution-belongs-to-the-gated-payment", "PATH",
+		"SQLStore.SettleAttempt and FailAttempt record a resolution (queries keyed by the attempt index alone) only after checkAttemptResolvable succeeded for the ID of the payment whose status was gated and the same attempt ID; checkAttemptResolvable returns nil only for an attempt of that payment's own attempt list that has no resolution, and the already-settled / already-failed errors for a resolved one; verifyAttempt, which both stores call inside their write transaction before storing an attempt, admits an attempt only when payment.GetAttempt(attempt.AttemptID) finds none; the loaders used by the stores' entry points map a missing payment to ErrPaymentNotInitiated",
+		"a resolution recorded for an attempt of another payment mutates a payment whose status was never checked; a duplicate attempt ID replaces an attempt whose amount is still in flight and the sum check forgets it; backends that answer an unknown payment differently break callers that test the sentinel error", 8,
+		func(o *an.Obl) {
+			chkID := pd + "checkAttemptResolvable"
+			for _, w := range []struct{ fn, query string }{
+				{pd + "SQLStore.SettleAttempt", "SettleAttempt"},
+				{pd + "SQLStore.FailAttempt", "FailAttempt"},
+			} {
+				root := p.Func(w.fn)
+				n := 0
+				for _, lf := range root.Lits {
+					writes := lf.Calls(func(id string, c *ast.CallExpr) bool {
+						return strings.HasSuffix(id, "."+w.query) && strings.Contains(id, "SQLQueries")
+					}, false)
+					if len(writes) == 0 {
+						continue
+					}
+					n += len(writes)
+					cs := lf.Calls(an.CalleeIs(chkID), false)
+					mustPass(o, lf, "checkAttemptResolvable", cs, an.OkErrNil, writes)
+					for _, c := range cs {
+						a := lf.ArgCanon(c)
+						o.Site("%s: checkAttemptResolvable(%s, %s)", w.fn, a[2], a[3])
+						if !reMatch(`^`+regexpQuote(pd)+`fetchPaymentByHash\(.*\)\.GetPayment\(\)\.ID$`, a[2]) {
+							o.FailAt(w.fn+"#ownership-payment", c.Where(), "the attempt's owner is checked against %s, expected the ID of the payment fetched by the hash of this call", a[2])
+						}
+						if a[3] != "$p2" {
+							o.FailAt(w.fn+"#ownership-attempt", c.Where(), "ownership is checked for attempt %s, expected the attempt ID of this call", a[3])
+						}
+					}
+					for _, wr := range writes {
+						// the write is keyed by the same attempt ID
+						if t := lf.Canon(callArg(wr, 1)); !strings.Contains(t, "AttemptIndex: int64($p2)") {
+							o.FailAt(w.fn+"#write-key", wr.Where(), "the resolution is written for %s", t)
+						}
+					}
+				}
+				if n != 1 {
+					o.FailAt(w.fn+"#writes", root.Where(root.Body.Pos()), "expected one resolution write in %s, found %d", w.fn, n)
+				}
+			}
+			ck := p.Func(chkID)
+			for _, s := range ck.Returns() {
+				rs := s.Node.(*ast.ReturnStmt)
+				c := an.Text(rs.Results[0])
+				switch c {
+				case "nil":
+					o.Site("checkAttemptResolvable accepts at %s", s.Where())
+					guarded(o, ck, s, an.Truth(an.FieldPath(an.FieldPath(nil, "ResolutionType"), "Valid"), false, "the attempt has no resolution"))
+					guarded(o, ck, s, an.CmpX(an.FieldPath(nil, "AttemptIndex"), an.EQ, an.Param(3), "attempt.AttemptIndex == attemptID"))
+					if hdr := enclosingLoopHeader(ck, rs); !strings.Contains(hdr, "FetchHtlcAttemptsForPayments(") {
+						o.FailAt(chkID+"#list", s.Where(), "the attempt is looked up in %s", hdr)
+					}
+				}
+			}
+			for _, s := range ck.Calls(an.CalleeNamed("FetchHtlcAttemptsForPayments"), false) {
+				if t := ck.Canon(callArg(s, 1)); t != "[]int64{$p2}" {
+					o.FailAt(chkID+"#payment", s.Where(), "the attempts are fetched for %s, expected the given payment only", t)
+				}
+			}
+			// duplicate attempt IDs
+			va := p.Func(pd + "verifyAttempt")
+			ga := va.Calls(an.CalleeIs(pd+"MPPayment.GetAttempt"), false)
+			if need(o, va, "payment.GetAttempt", ga, 1) {
+				if a := va.ArgCanon(ga[0]); a[0] != "$p1.AttemptID" {
+					o.FailAt(va.ID+"#duplicate-id-arg", ga[0].Where(), "the duplicate check looks up %s", a[0])
+				}
+				for _, s := range va.Returns() {
+					if !an.IsNilIdent(va.Info(), s.Node.(*ast.ReturnStmt).Results[0]) {
+						continue
+					}
+					// success only when the lookup found no attempt under that ID
+					guarded(o, va, s, an.IsNil(an.LocalNamed("err"), false, "payment.GetAttempt(attempt.AttemptID) found nothing"))
+				}
+			}
+			// unknown payments
+			for _, e := range []string{"SQLStore.RegisterAttempt", "SQLStore.SettleAttempt", "SQLStore.FailAttempt", "SQLStore.Fail", "SQLStore.DeletePayment", "SQLStore.DeleteFailedAttempts"} {
+				root := p.FuncOpt(pd + e)
+				if root == nil {
+					continue
+				}
+				for _, lf := range append([]*an.Func{root}, root.Lits...) {
+					for _, s := range lf.AllCalls(false) {
+						id := an.CalleeID(lf.Info(), s.Node.(*ast.CallExpr))
+						if strings.HasSuffix(id, "SQLQueries.FetchPayment") {
+							// allowed only after an existence check in the same closure
+							pre := lf.Calls(an.CalleeIs(pd+"fetchPaymentByHash"), false)
+							rows := 0
+							for _, g := range lf.GuardsAt(s) {
+								if strings.Contains(g, "rowsAffected") {
+									rows++
+								}
+							}
+							o.Site("%s reads the payment row directly at %s", pd+e, s.Where())
+							if len(pre) == 0 && rows == 0 {
+								o.FailAt(pd+e+"#raw-fetch", s.Where(), "%s fetches the payment with the raw query: a missing payment surfaces as sql.ErrNoRows instead of ErrPaymentNotInitiated", pd+e)
+							}
+						}
+					}
+				}
+			}
+			kd := p.Func(pd + "KVStore.DeletePayment")
+			for _, lf := range kd.Lits {
+				for _, s := range lf.Returns() {
+					rs, isRet := s.Node.(*ast.ReturnStmt)
+					if !isRet {
+						continue
+					}
+					if ok, _ := lf.Guarded(s, an.IsNil(an.LocalNamed("bucket"), true, "")); ok && len(rs.Results) == 1 {
+						o.Site("KVStore.DeletePayment on an unknown hash returns %s", an.Text(rs.Results[0]))
+						if an.Text(rs.Results[0]) != "ErrPaymentNotInitiated" {
+							o.FailAt(kd.ID+"#unknown-payment", s.Where(), "KVStore.DeletePayment answers an unknown payment with %s, the SQL store with ErrPaymentNotInitiated", an.Text(rs.Results[0]))
+						}
 					}
 				}
 			}
